@@ -478,7 +478,8 @@ def run_check(prop, tier, seed):
             for n, cfg in enumerate(r.get("configs") or [r["config"]]):
                 case = {"id": "replay:%s:%d" % (f["id"], n), "machine": cfg["machine"], "origin": "replay", "features": ["replay:" + f["id"]]}
                 replay_tasks.append(_task(case, cfg["template"], bool(cfg.get("async")), int(cfg.get("files", 2)), seed))
-        for qfn in (c17_naming, c17_guard_ir, c17_cli):
+        from . import c17xproc
+        for qfn in (c17_naming, c17_guard_ir, c17_cli, c17xproc.c17_regen_across_processes):
             tq = time.time()
             qr = qfn(tier, seed, tasks=replay_tasks + build_tasks(tier, seed)) if qfn is c17_cli else qfn(tier, seed)
             log(f"[{qfn.__name__}] {qr['evaluations']} evaluations, {len(qr['ties'])} disagreements, {len(qr['fails'])} monitor failures, {time.time() - tq:.1f}s")
